@@ -14,6 +14,7 @@
 //	v.done()                                       => PDone v
 //	v as a call argument, assigned, returned, sent => PEscape v
 //	client.shutdown = true / client.closing = true => PSetShutdown / PSetClosing
+//	k := client.seq / client.seq++                 => PSeqRead k / PSeqInc   (any other write to client.seq is refused)
 //	for k, v := range client.pending { ... }       => SLoop v k [body paths]
 //
 // A branch adds what its condition says about a *Call variable or the flags (v != nil, v == w, client.shutdown ||
@@ -142,7 +143,7 @@ func (t *tr) mentions(n ast.Node) bool {
 				}
 			}
 		case *ast.SelectorExpr:
-			if t.isRecvField(v, "pending") || t.isRecvField(v, "mutex") || t.isRecvField(v, "shutdown") || t.isRecvField(v, "closing") {
+			if t.isRecvField(v, "pending") || t.isRecvField(v, "mutex") || t.isRecvField(v, "shutdown") || t.isRecvField(v, "closing") || t.isRecvField(v, "seq") {
 				found = true
 			}
 			if v.Sel.Name == "done" {
@@ -172,6 +173,9 @@ func (t *tr) escapes(e ast.Node) []string {
 		case *ast.SelectorExpr:
 			if v.Sel.Name == "done" {
 				fail(v.Pos(), "done() outside a statement of its own")
+			}
+			if t.isRecvField(v, "seq") {
+				fail(v.Pos(), "client.seq read outside `k := client.seq`")
 			}
 			if _, ok := v.X.(*ast.Ident); ok {
 				walk(v.X, true) // a field read
@@ -374,6 +378,15 @@ func (t *tr) assign(v *ast.AssignStmt) []string {
 			}
 			fail(v.Pos(), "client.pending replaced")
 		}
+		if t.isRecvField(l, "seq") {
+			fail(v.Pos(), "client.seq assigned (only client.seq++ is known)")
+		}
+		if t.isRecvField(r, "seq") {
+			if _, isId := l.(*ast.Ident); !isId {
+				fail(v.Pos(), "client.seq read into something that is not a variable")
+			}
+			return []string{fmt.Sprintf("PSeqRead %d", t.key(l))}
+		}
 		if t.isRecvField(l, "shutdown") || t.isRecvField(l, "closing") {
 			if !isTrue(r) {
 				fail(v.Pos(), "a flag set to something other than true")
@@ -427,7 +440,7 @@ func (t *tr) assign(v *ast.AssignStmt) []string {
 				ops = append(ops, fmt.Sprintf("PWrite %d", x))
 				continue
 			}
-			if t.isRecvField(lv, "pending") || t.isRecvField(lv, "shutdown") || t.isRecvField(lv, "closing") || t.isRecvField(lv, "mutex") {
+			if t.isRecvField(lv, "pending") || t.isRecvField(lv, "shutdown") || t.isRecvField(lv, "closing") || t.isRecvField(lv, "mutex") || t.isRecvField(lv, "seq") {
 				fail(v.Pos(), "a tracked field assigned in a multiple assignment")
 			}
 			ops = append(ops, t.escapes(lv.X)...)
@@ -510,10 +523,15 @@ func (t *tr) stmt(s ast.Stmt, ps []path) []path {
 			}
 		}
 		return extend(ps, ops)
-	case *ast.IncDecStmt, *ast.EmptyStmt:
+	case *ast.IncDecStmt:
+		if t.isRecvField(v.X, "seq") && v.Tok == token.INC {
+			return extend(ps, []string{"PSeqInc"})
+		}
 		if t.mentions(v) {
 			fail(v.Pos(), "statement mentions something tracked")
 		}
+		return ps
+	case *ast.EmptyStmt:
 		return ps
 	case *ast.SendStmt:
 		return extend(ps, append(t.escapes(v.Chan), t.escapes(v.Value)...))
@@ -859,6 +877,21 @@ func main() {
 				}
 				touches := false
 				ast.Inspect(fd.Body, func(n ast.Node) bool {
+					// the sequence counter is written only where this translator sees it
+					var lhs []ast.Expr
+					switch st := n.(type) {
+					case *ast.AssignStmt:
+						lhs = st.Lhs
+					case *ast.IncDecStmt:
+						lhs = []ast.Expr{st.X}
+					}
+					for _, l := range lhs {
+						if sel, ok := l.(*ast.SelectorExpr); ok && sel.Sel.Name == "seq" && recvType == "Client" {
+							if id, ok := sel.X.(*ast.Ident); ok && id.Name == recvName {
+								touches = true
+							}
+						}
+					}
 					if s, ok := n.(*ast.SelectorExpr); ok && (s.Sel.Name == "pending" || s.Sel.Name == "done") {
 						if s.Sel.Name == "done" {
 							touches = true
@@ -869,7 +902,7 @@ func main() {
 					return !touches
 				})
 				if touches {
-					fail(fd.Pos(), "function %s touches the pending table or completes a call but is not one of send, SendRaw, call, input, Close", fd.Name.Name)
+					fail(fd.Pos(), "function %s touches the pending table or the sequence counter, or completes a call, but is not one of send, SendRaw, call, input, Close", fd.Name.Name)
 				}
 				continue
 			}
